@@ -152,6 +152,9 @@ func (x *runner) archive(fam string, specs []spec) {
 	for _, m := range ms {
 		lines = append(lines, opline{mline(m), "ok", false})
 	}
+	if xt, ok := referenceTree(ms, tree); ok {
+		lines = append(lines, opline{"xtree", xt, true})
+	}
 	skip := ""
 	if nerr == nil {
 		lk, ins := sys.TablesForVerif()
@@ -165,6 +168,15 @@ func (x *runner) archive(fam string, specs []spec) {
 		}
 	} else {
 		lines = append(lines, opline{"new", newOut, true})
+		if linkInPath(ms) {
+			// New failed on an archive in which some member is placed through a
+			// link: two spellings of one name may have produced two children of
+			// one directory before the failure, and then which of them a walk
+			// meets (and so whether and how New fails) depends on Go's map
+			// iteration order. The tables are gone, so this cannot be checked
+			// after the fact; nothing is compared.
+			skip = "new-failed-with-link-in-a-member-path"
+		}
 	}
 	if skip != "" {
 		// The answer of the real code depends on Go's map iteration order;
@@ -173,7 +185,10 @@ func (x *runner) archive(fam string, specs []spec) {
 	} else {
 		for _, l := range lines {
 			r.Op(l.op, l.out, l.nt)
-			if strings.HasPrefix(l.op, "m ") || l.op == "reset" {
+			if strings.HasPrefix(l.op, "m ") || l.op == "reset" || l.op == "xtree" {
+				if l.op == "xtree" {
+					r.Count("op:xtree")
+				}
 				continue
 			}
 			r.Count("op:" + strings.SplitN(l.op, " ", 2)[0])
@@ -276,6 +291,22 @@ func nondeterministic(lk map[string]int, ins []tarfs.InodeForVerif) string {
 	for n := range removed {
 		if removed[path.Dir(n)] {
 			return "removed-link-under-removed-link"
+		}
+	}
+	// A removed link was, until the cleanup, a child of the directory its
+	// literal parent name is the key of. If that directory has another child
+	// of the same name (placed through a link), walks during New were
+	// ambiguous although the final tables do not show it.
+	for i, n := range ins {
+		if live[i] {
+			continue
+		}
+		if pi, ok := lk[path.Dir(n.Name)]; ok && ins[pi].IsDirNode {
+			for _, c := range ins[pi].Children {
+				if path.Base(ins[c].Name) == path.Base(n.Name) {
+					return "removed-link-shadowed-an-entry"
+				}
+			}
 		}
 	}
 	return ""
@@ -535,4 +566,66 @@ func (x *runner) fnOps(n int) {
 		}
 		x.r.Count("op:fn")
 	}
+}
+
+// referenceTree renders, for an archive of directories and regular files
+// only, what the independent extraction created, in the format of the Lean
+// reference `extract` ("none" when the archive is outside its class).
+func referenceTree(ms []member, t *otree) (string, bool) {
+	for _, m := range ms {
+		if m.Kind != 'd' && m.Kind != 'r' {
+			return "", false
+		}
+		if strings.ContainsRune(m.Name, utf8.RuneError) || strings.Contains(m.Name, "\\") {
+			return "", false
+		}
+	}
+	if len(t.flags.nonWF) > 0 || len(t.flags.otherRep) > 0 {
+		return "none", true
+	}
+	var want []oentry
+	t.listing(t.root, "", &want)
+	items := []string{hx.Hex([]byte(".")) + ":d"}
+	for _, w := range want {
+		switch w.node.kind {
+		case 'd':
+			items = append(items, hx.Hex([]byte(w.path))+":d")
+		case 'f':
+			items = append(items, fmt.Sprintf("%s:f:%d:%d", hx.Hex([]byte(w.path)), len(w.node.data), fnv(w.node.data)))
+		default:
+			return "", false
+		}
+	}
+	sort.Strings(items)
+	return renderList(items), true
+}
+
+// linkInPath says whether the name of some symbolic or hard link member is a
+// proper prefix (element-wise, after lexical cleaning) of another member's
+// name. Only then can add/walkTo meet a link in directory position.
+func linkInPath(ms []member) bool {
+	var links [][]string
+	for _, m := range ms {
+		if m.Kind == 's' || m.Kind == 'l' {
+			links = append(links, lexClean(m.Name))
+		}
+	}
+	for _, m := range ms {
+		el := lexClean(m.Name)
+		for _, l := range links {
+			if len(l) < len(el) {
+				same := true
+				for i := range l {
+					if l[i] != el[i] {
+						same = false
+						break
+					}
+				}
+				if same {
+					return true
+				}
+			}
+		}
+	}
+	return false
 }
